@@ -22,6 +22,7 @@ def step : Sexp → Option Sexp
       -- operator choice for i/j, mod(i,j) (integer variables), mod(x,y) (real variables), mod(i, 2.0) (a real literal)
       pure (list [atom "ok", list [atom "slash", encMod (modChoice false false), encMod (modChoice true false), encMod (modChoice false true)],
                   ofInt (cDiv a b), ofInt (cMod a b)])
+  | list [atom "abi"] => pure (list [atom "ok", atom "abi"])
   | list [atom "passby"] =>
       pure (list (atom "ok" :: Tables.passTable.map fun r => list [ofBool r.1, atom r.2.1, atom r.2.2.1, ofBool r.2.2.2]))
   | list (atom "prog" :: prog :: inputs) => do
